@@ -231,8 +231,14 @@ def merge_scenarios(rng, idx, n):
             seed += 1
             k = rng.choice(keys)
             b.append(rng.choice(["put %s p%d:%d" % (k, seed, rng.choice([10, 1200])), "del %s" % k]))
-        scs.append({"cfg": "4096 0 0 %d %d 4" % (idx, rng.choice([0, 0, 1])), "setup": setup, "a": "merge", "point": "merge.record",
-                    "nth": rng.randrange(1, 18), "b": b, "after": []})
+        point = "merge.record" if i % 3 else "merge.rotated"
+        if point == "merge.rotated":
+            # writers that fill the fresh active file and rotate while Merge has just released the lock
+            for j in range(rng.choice([4, 6])):
+                seed += 1
+                b.append("put %s p%d:%d" % (rng.choice(keys + ["7777", "7878"]), seed, rng.choice([1200, 1500])))
+        scs.append({"cfg": "4096 0 0 %d %d 4" % (idx, rng.choice([0, 0, 1])), "setup": setup, "a": "merge", "point": point,
+                    "nth": rng.randrange(1, 18) if point == "merge.record" else 1, "b": b, "after": []})
     return scs
 
 
